@@ -42,6 +42,7 @@ func init() {
 		c11ReleaseAtClose(c, "C03.8") // the caller's close callback (→ OnClose("forced close")) is run on every polling DoClose path
 		c12CallbackBeforeTeardown(c)  // … and by websocket/webtransport DoClose, handed over by transport.Close
 		c12CloseWaitsForBuffer(c)     // closeTransport's callback reports 'forced close'
+		c03PeerCloseClassification(c)
 	})
 }
 
@@ -672,4 +673,61 @@ func c03AdmittedStates(c *core.Ctx, R string, only map[string]bool) {
 		got := stateSetString(admittedStates(cl.U, cl.Loc, sockStateKeys, r.field))
 		c.Check(R, "engine/"+r.id+"@states", cl.Pos(), got == r.want, keyf("runs in %s, table says %s", got, r.want))
 	}
+}
+
+// c03PeerCloseClassification — C03.10: which cause a connection failure is
+// reported as. A close frame / close error from the peer is "transport close";
+// everything else is "transport error".
+func c03PeerCloseClassification(c *core.Ctx) {
+	const R = "C03.10"
+	c.Rule(R, "cause classification (sibling agreement websocket.message ∥ webTransport.message ∥ HandleUpgrade's Upgrader.Error): a read failure is reported as Emit(\"error\") — hence close reason 'transport error' — only on the false edge of IsUnexpectedCloseError(err) called without a list of expected codes (= every close error of the peer, whatever its status code), and Emit(\"close\") — 'transport close' — is reachable after that test; a classification that depends on the close code (IsCloseError(err, codes…), IsUnexpectedCloseError(err, codes…)) reports a peer close with an unusual code under the wrong cause")
+	sites := 0
+	var units []*core.Unit
+	for _, k := range []string{"transports.(*websocket).message", "transports.(*webTransport).message"} {
+		if u := c.Fn(R, k); u != nil {
+			units = append(units, u)
+		}
+	}
+	if hu := c.Fn(R, "engine.(*server).HandleUpgrade"); hu != nil {
+		for _, k := range hu.AllUnits() {
+			if k != hu && len(k.CallsTo(".IsUnexpectedCloseError", ".IsCloseError")) > 0 {
+				units = append(units, k)
+			}
+		}
+	}
+	for _, u := range units {
+		g := u.Graph()
+		cls := u.CallsTo(".IsUnexpectedCloseError", ".IsCloseError")
+		if !c.Exists(R, u.Key+"/close-classifier-present", u.Pos(), len(cls) > 0, "the read-error edge distinguishes a peer close from an error") {
+			continue
+		}
+		evs := events(c, u)
+		for _, cl := range cls {
+			sites++
+			anyClose := cl.Name == "IsUnexpectedCloseError" && len(cl.Expr.Args) == 1
+			c.Check(R, keyf("%s/%s(err)-without-code-list", u.Key, cl.Name), cl.Pos(), anyClose, "every close error of the peer counts as a close, whatever its status code")
+			notClose := func(x *core.Unit, br core.Branch) int {
+				if br.IsCase {
+					return 0
+				}
+				if ce, _ := x.AsCall(br.Cond); ce != nil && ce == cl.Expr {
+					return -1
+				}
+				return 0
+			}
+			okErr, okClose := false, false
+			for _, e := range filterEv(evs, "emit", "conn", "error") {
+				if g.GuardedBy(e.Loc, notClose) {
+					okErr = true
+				}
+			}
+			for _, e := range filterEv(evs, "emit", "conn", "close") {
+				if g.CanFollow(cl.Loc, e.Loc) && !g.GuardedBy(e.Loc, notClose) {
+					okClose = true
+				}
+			}
+			c.Check(R, keyf("%s/error-iff-not-a-peer-close", u.Key), cl.Pos(), okErr && okClose, keyf("Emit(error) on the not-a-close edge: %v; Emit(close) on the other: %v", okErr, okClose))
+		}
+	}
+	c.Need(R, "close classifiers on read-error edges", sites, 3)
 }
